@@ -5,6 +5,14 @@ Representation for operations that are nearly translated into SQL.
 import abc
 from typing import Dict, Iterable, List, Optional, Tuple
 
+# verification hooks: active only under DATA_ALGEBRA_VERIF=1 (see data_algebra/_verif_trace.py)
+import os as _os
+
+_VERIF_TRACE = None
+if _os.environ.get("DATA_ALGEBRA_VERIF") == "1":
+    import data_algebra._verif_trace as _VERIF_TRACE
+
+
 import data_algebra.OrderedSet
 
 
@@ -223,6 +231,8 @@ class NearSQLContainer:
                         public_name=self.public_name,
                         public_name_quoted=self.public_name_quoted,
                     )
+                    if _VERIF_TRACE is not None:
+                        _VERIF_TRACE.cte_event("hit", cte_cache, ops_key, retrieved_cte, stub, sequence)
                     return new_stub, []
                 except KeyError:
                     pass
@@ -252,6 +262,8 @@ class NearSQLContainer:
             )
             if (cte_cache is not None) and (ops_key is not None):
                 cte_cache[ops_key] = new_stub_cte
+            if _VERIF_TRACE is not None:
+                _VERIF_TRACE.cte_event("emit", cte_cache, ops_key, new_stub_cte, stub, sequence)
         else:
             assert len(sequence) == 0
             new_stub = NearSQLContainer(
